@@ -361,9 +361,7 @@ C09_Step ==
   /\ (e.op = "sign" /\ NF /\ ~locked /\ ~dead /\ ~ulocked /\ e.arg \in mem' /\ CertKey[e.arg] \in under') => e.res.ok
   /\ (e.op = "remove" /\ NF /\ ~locked /\ ~dead /\ ~ulocked /\ e.arg \in under) => (e.res.ok /\ e.arg \notin under')
 
-\* C10 - hardware certificates are bound to a held key; everything else passes through intact
-C10_Step ==
-  /\ ~e.res.pan
+C10_Live ==
   /\ (e.op = "addhard" /\ NF) =>
         /\ (e.res.ok /\ e.arg \notin mem) => (e.arg \in Certs /\ CertKey[e.arg] \in UList \cap Keys)
         /\ (e.arg \in mem /\ ~locked) => (e.res.ok /\ mem' = mem)
@@ -411,6 +409,17 @@ C10_Step ==
         /\ (e.op = "forward" /\ e.res.ok) => e.res.by = "relayed"
         /\ \A c \in mem : (c \notin MayGo(e.op, e.arg)) => c \in mem'
         /\ mem' \subseteq mem /\ under' \subseteq under
+
+\* C10 - hardware certificates are bound to a held key; everything else passes through intact
+C10_Step ==
+  /\ ~e.res.pan
+  \* what the shim does once its connection to the underlying agent is gone (Close, or a fault that ended the
+  \* connection) is not stated beyond "an error, never a crash, never discards a still-valid in-memory
+  \* certificate": nothing appears, valid in-memory certificates stay unless the operation is a removal
+  /\ (dead /\ e.op \in ShimOps) =>
+        /\ mem' \subseteq mem /\ under' \subseteq under
+        /\ (e.op \notin {"remove", "removeall"}) => \A c \in mem : Valid(c, now) => c \in mem'
+  /\ (~dead \/ e.op \notin ShimOps) => C10_Live
 
 Props == C07_Step /\ C08_Step /\ C09_Step /\ C10_Step
 \* the loose fault specification really contains the enumerating one
